@@ -11,6 +11,12 @@ type syntaxChildMultiIdentifier struct {
 }
 
 func (i *syntaxChildMultiIdentifier) setNext(next syntaxNode) {
+	if i.next != nil {
+		// Already linked: the members share this successor, hand on once.
+		i.next.setNext(next)
+		return
+	}
+
 	for _, identifier := range i.identifiers {
 		identifier.setNext(next)
 	}
